@@ -438,12 +438,20 @@ static void lin_case(Ctx &ctx, int64_t kase, vf::Rng &r) {
   z_lin_exp_t e1 = gen_expr(s1), e2 = gen_expr(s2);
   int64_t k = coefv();
   z_lin_exp_t sum = e1 + e2, dif = e1 - e2, scl = e1 * z_number(k), neg = -e1, addc = e1 + z_number(k), subv = e1 - vars[0], addv = e1 + vars[0];
-  // renaming v_i -> v_{i+3 mod}, injective
+  // renaming: an arbitrary (possibly non-injective) map over the variables: targets
+  // may coincide with each other and with variables that are not renamed
   std::map<z_var, z_var> ren;
+  std::map<int, int> ren_idx;
   int nren = r.below(nv + 1);
-  for (int i = 0; i < nren; ++i) ren.insert({vars[i], vars[nv + (i % 3)]});
-  bool ren_inj = nren <= 3;
-  z_lin_exp_t rn = ren_inj ? e1.rename(ren) : e1;
+  for (int i = 0; i < nren; ++i) {
+    int from = r.below(nv);
+    int to = r.chance(1, 2) ? nv + r.below(3) : r.below(nv + 3);
+    if (ren_idx.count(from)) continue;
+    ren_idx[from] = to;
+    ren.insert({vars[from], vars[to]});
+  }
+  z_lin_exp_t rn = e1.rename(ren);
+  z_lin_cst_t rnc = z_lin_cst_t(e1, z_lin_cst_t::INEQUALITY).rename(ren);
   for (int t = 0; t < 6; ++t) {
     std::vector<int64_t> v;
     std::map<std::string, int64_t> m;
@@ -458,14 +466,15 @@ static void lin_case(Ctx &ctx, int64_t kase, vf::Rng &r) {
     if (eval_crab(addc, m) != a + k) { fail("expr-addconst", estr(addc)); return; }
     if (eval_crab(subv, m) != a - v[0]) { fail("expr-subvar", estr(subv)); return; }
     if (eval_crab(addv, m) != a + v[0]) { fail("expr-addvar", estr(addv)); return; }
-    if (ren_inj) {
-      // renamed expression under m equals original under m' where m'(v_i) = m(ren(v_i))
+    {
+      // eval(rename(e, m), sigma) == eval(e, sigma o m)
       std::vector<int64_t> v2(v);
-      for (int i = 0; i < nren; ++i) v2[i] = v[nv + (i % 3)];
+      for (auto &kv : ren_idx) v2[kv.first] = v[kv.second];
+      ctx.count(ren_idx.empty() ? "rename_identity_evals" : "rename_evals");
       if (eval_crab(rn, m) != eval_spec(s1, v2)) { fail("expr-rename", estr(e1) + " renamed = " + estr(rn)); return; }
+      if (eval_cst(rnc, m) != (eval_spec(s1, v2) <= 0)) { fail("cst-rename", estr(e1) + "<=0 renamed = " + cstr(rnc)); return; }
     }
   }
-  // coefficient lookup and canonical form: no zero coefficients listed, operator[] agrees
   // (a stored zero coefficient - possible via linear_expression(0, x) - is not a
   //  violation of the property as stated; it is only counted)
   for (auto it = sum.begin(); it != sum.end(); ++it)
